@@ -267,6 +267,8 @@ pub fn probe_structures() -> i32 {
 // ---------------------------------------------------------------- generated inputs (deterministic, seeded by VERIF_SEED)
 /// xorshift64*: small deterministic generator so that a run is reproducible from its seed
 pub struct Rng(pub u64);
+/// generated-case counts are multiplied by PROBE_SCALE (the thorough tier sets it)
+pub fn scale(n: u64) -> u64 { n * std::env::var("PROBE_SCALE").ok().and_then(|x| x.parse::<u64>().ok()).unwrap_or(1).max(1) }
 impl Rng {
     pub fn from_env() -> Rng { let s = std::env::var("VERIF_SEED").ok().and_then(|x| x.parse::<u64>().ok()).unwrap_or(0); Rng(0x9E3779B97F4A7C15u64 ^ s.wrapping_mul(0xD1B54A32D192ED03).wrapping_add(1)) }
     pub fn next(&mut self) -> u64 { let mut x = self.0; x ^= x >> 12; x ^= x << 25; x ^= x >> 27; self.0 = x; x.wrapping_mul(0x2545F4914F6CDD1D) }
@@ -490,8 +492,8 @@ pub fn probe_headers() -> i32 {
         maps.push(vec![(l1.clone(), good(l1)[0].clone()), (l2.clone(), good(l2)[0].clone()), (l3.clone(), good(l3)[0].clone())]);
     } } }
     // generated header maps (seeded): nested counter signatures, protected byte strings, whitespace in content types, boundary integers
-    { let mut r = Rng::from_env(); for _ in 0..6000 { if let Value::Map(m) = gen_header(&mut r, 0) { maps.push(m); } }
-      for _ in 0..300 { if let Value::Map(m) = gen_long_dup(&mut r, None, &|i| if i % 3 == 0 { Value::Text(format!("p{}", i)) } else { Value::from(100 + i) }) { maps.push(m); } } }
+    { let mut r = Rng::from_env(); for _ in 0..scale(6000) { if let Value::Map(m) = gen_header(&mut r, 0) { maps.push(m); } }
+      for _ in 0..scale(300) { if let Value::Map(m) = gen_long_dup(&mut r, None, &|i| if i % 3 == 0 { Value::Text(format!("p{}", i)) } else { Value::from(100 + i) }) { maps.push(m); } } }
     let mut n = 0u64;
     let mut accepted = 0u64;
     for m in &maps {
@@ -840,7 +842,7 @@ pub fn probe_messages() -> i32 {
     let shapes: [&[u8]; 8] = [&[0, 1, 2, 3], &[0, 1, 2, 4], &[0, 1, 3], &[0, 1, 2, 3, 5], &[0, 1, 2, 3], &[0, 1, 2, 5], &[0, 1, 2], &[0, 1, 2]];
     let names = ["COSE_Sign1", "COSE_Sign", "COSE_Signature", "COSE_Mac", "COSE_Mac0", "COSE_Encrypt", "COSE_Encrypt0", "COSE_recipient"];
     let mut n = 0u64; let mut accepted = 0u64;
-    for _ in 0..4000 {
+    for _ in 0..scale(4000) {
         let kind = r.below(8) as usize;
         let mut a: Vec<Value> = if kind == 7 { match gen_recipient(&mut r, 0) { Value::Array(a) => a, _ => vec![] } } else { shapes[kind].iter().map(|w| gen_slot(&mut r, *w)).collect() };
         if r.chance(7) { a.pop(); } else if r.chance(7) { a.push(gen_any(&mut r)); }
@@ -913,8 +915,8 @@ pub fn probe_keys() -> i32 {
     let mut maps: Vec<Vec<(Value, Value)>> = vec![vec![]];
     for l in &labels { for v in &values { maps.push(vec![(l.clone(), v.clone())]); maps.push(vec![(Value::from(1), Value::from(4)), (l.clone(), v.clone())]); maps.push(vec![(l.clone(), v.clone()), (Value::from(1), Value::Text("kt".into()))]); } }
     for l1 in &labels { for l2 in &labels { maps.push(vec![(Value::from(1), Value::from(2)), (l1.clone(), Value::Bytes(vec![7])), (l2.clone(), Value::Bytes(vec![8]))]); } }
-    { let mut r = Rng::from_env(); for _ in 0..6000 { if let Value::Map(m) = gen_key(&mut r) { maps.push(m); } }
-      for _ in 0..300 { if let Value::Map(m) = gen_long_dup(&mut r, Some((Value::from(1), Value::from(4))), &|i| Value::from(-1 - i)) { maps.push(m); } } }
+    { let mut r = Rng::from_env(); for _ in 0..scale(6000) { if let Value::Map(m) = gen_key(&mut r) { maps.push(m); } }
+      for _ in 0..scale(300) { if let Value::Map(m) = gen_long_dup(&mut r, Some((Value::from(1), Value::from(4))), &|i| Value::from(-1 - i)) { maps.push(m); } } }
     let mut n = 0u64;
     for m in &maps {
         n += 1;
@@ -1007,8 +1009,8 @@ pub fn probe_claims() -> i32 {
     let mut maps: Vec<Vec<(Value, Value)>> = vec![vec![]];
     for k in &keys { for v in &vals { maps.push(vec![(k.clone(), v.clone())]); } }
     for k1 in &keys { for k2 in &keys { maps.push(vec![(k1.clone(), Value::Text("a".into())), (k2.clone(), Value::Text("b".into()))]); maps.push(vec![(k1.clone(), Value::from(5)), (Value::from(-70000), Value::Null), (k2.clone(), Value::from(6))]); } }
-    { let mut r = Rng::from_env(); for _ in 0..6000 { if let Value::Map(m) = gen_claims(&mut r) { maps.push(m); } }
-      for _ in 0..300 { if let Value::Map(m) = gen_long_dup(&mut r, None, &|i| Value::from(-70000 - i)) { maps.push(m); } } }
+    { let mut r = Rng::from_env(); for _ in 0..scale(6000) { if let Value::Map(m) = gen_claims(&mut r) { maps.push(m); } }
+      for _ in 0..scale(300) { if let Value::Map(m) = gen_long_dup(&mut r, None, &|i| Value::from(-70000 - i)) { maps.push(m); } } }
     for m in &maps {
         n += 1;
         let v = Value::Map(m.clone());
@@ -1094,7 +1096,7 @@ pub fn probe_builders() -> i32 {
     // generated longer call sequences (seeded)
     {
         let mut r = Rng::from_env();
-        for _ in 0..3000 {
+        for _ in 0..scale(3000) {
             n += 1;
             let len = 1 + r.below(8);
             let mut model = Header::default();
